@@ -1,3 +1,4 @@
+import BigtoolsModel.AtomsTB
 import BigtoolsModel.WriteGenTB
 import BigtoolsModel.TempBuf2
 /-! # C12 — the staging buffer delivers every byte once, in order, under every interleaving
@@ -133,3 +134,11 @@ theorem C12_source_buffers_reach_every_destination_whole (s : WA.Sink) (h : 0 < 
     (Gen.wr_bare_write_tempfilebuffer = []) ∧ (bufs.foldl WA.writeAll s).data = s.data ++ bufs.flatten ∧
     (∀ buf, (s.write buf).1.data = s.data ++ buf ↔ buf.length ≤ s.take) :=
   ⟨WA.gen_no_bare_write_tempfilebuffer, WA.writeAll_sequence s h bufs, fun buf => WA.write_delivers_iff s buf⟩
+
+/-- **Tie to the source: the reported length.** `len()` assembled from the expressions of tempfilebuffer.rs (regenerated on every run: the
+    in-memory arm and the nothing-written arm) is the model's `lenNow` on every state — so `C12`'s "reports the number of bytes written"
+    (`unswitched_programs`) speaks about the length the code computes, for every staged size: no narrowing cast on the way (2^32 staged
+    bytes and more are reported in full). The temp-file arm returns the file's position as the operating system reports it. -/
+theorem C12_source_reported_length (s : TB.St) (n : Nat) :
+    TB.lenGen s = TB.lenNow s ∧ Gen.tb_len_inmem n = n ∧ Gen.tb_len_notstarted = 0 :=
+  ⟨TB.gen_len_is_the_models s, TB.gen_len_atoms n⟩
